@@ -265,6 +265,13 @@ def tree_mutants(data):
         yield [(tag, None, real[:-1])]
         yield [(tag, None, real + b"\x00")]
         yield [(tag, None, b"\x00" + real)]
+        if kids is None:
+            # very long contents: an INTEGER of 2000 bytes, an OID arc of
+            # 2100 base-128 digits (values whose decimal form is longer than
+            # the interpreter's int->str limit)
+            yield [(tag, None, b"\x01" * 2000)]
+            yield [(tag, None, b"\x2a" + b"\x81" * 2100 + b"\x01")]
+            yield [(tag, None, b"\x00" + b"\x7f" * 2500)]
         for t in (0x02, 0x03, 0x04, 0x05, 0x06, 0x30, 0x31, 0xa0, 0xa1, 0xa2,
                   0x80):
             if t != tag:
